@@ -123,6 +123,12 @@ func fieldDefs(p protoSpec, n, d, pos int) []fdef {
 		if pos == 0 {
 			add(1, 0, "point", 1, "otsender.0", false, "OtR1", "ms", cb)
 		}
+	case "otext":
+		if pos == 0 {
+			// the sigma mask block of x' (recovered from u_i and the public seed expansions) is the 16 bytes drawn
+			add(1, 0, "raw", 1, "extseed.0", false, "@sigma-mask.first")
+			add(1, 0, "raw", 1, "extseed.0", false, "@sigma-mask.last")
+		}
 	case "lindell17":
 		if pos == 0 {
 			add(1, 0, "commit", 0, "", true, "bigR1Commitment")
@@ -165,7 +171,9 @@ func fieldsOf(p protoSpec, o *obs) []field {
 			}
 			f := field{Party: id, Round: d.round, Kind: d.kind, DrawRound: d.drawRound, Site: d.site, Nonce: d.nonce,
 				Name: fmt.Sprintf("%s/r%d%s.%s", p.Name, d.round, tag, strings.Join(d.path, "."))}
-			if m := o.msg(d.round, id, to); m != nil {
+			if len(d.path) == 1 && strings.HasPrefix(d.path[0], "@") {
+				f.Got = o.Derived[d.path[0][1:]]
+			} else if m := o.msg(d.round, id, to); m != nil {
 				if b, ok := bytesAt(o.decoded(m), d.path...); ok {
 					f.Got = b
 				}
@@ -248,6 +256,8 @@ func modelCfg(p protoSpec, o *obs, pos int) mcfg {
 			m.rho = lenAt(o.decoded(msg), "eta")
 		}
 		m.fam = []string{"vole-alice", "vole-bob"}[pos]
+	case "otext":
+		m.fam = []string{"otext-receiver", "otext-sender"}[pos]
 	case "lindell17":
 		m.rho = 16 // repetitions of the Fischlin compiler (fischlin: rho = 16 parallel Schnorr commitments)
 		m.pail = 384
@@ -269,6 +279,7 @@ type drawRow struct {
 	site   string // "<site>.<idx>"
 	scalar bool
 	retry  bool // rejection sampled: the specified count is a minimum
+	drop   bool // discarded by design (column entry 0 overwritten)
 	n      int
 }
 
@@ -295,7 +306,7 @@ func parseRows(s string) ([]drawRow, error) {
 			return nil, err
 		}
 		for i := 0; i < cnt; i++ {
-			out = append(out, drawRow{site: f[0], scalar: strings.HasPrefix(f[1], "s"), retry: strings.HasSuffix(f[1], "!"), n: n})
+			out = append(out, drawRow{site: f[0], scalar: strings.HasPrefix(f[1], "s"), retry: strings.Contains(f[1], "!"), drop: strings.Contains(f[1], "~"), n: n})
 		}
 	}
 	return out, nil
